@@ -6,6 +6,7 @@
    document and the routes hold for EVERY configuration record; those that relate to options are for
    `build p opts = Some cfg`, for all option lists. *)
 From Verif Require Import Base Scope Types Prog Pop Token Authorize System Config Discovery Required Rets ConfigProofs C11Proofs C19Proofs.
+From Verif Require Import Run Monitors PkceProofs.
 From Verif Require Import Config2 Discovery2 C19ListsProofs.
 Local Open Scope N_scope.
 
@@ -151,6 +152,51 @@ Theorem pkce_method_not_advertised_refused : forall iss mtls p opts cfg statics,
   p_request_uri (ar_params r) = 0 -> xrefused (snd (step_g (mkWorld cfg statics) st n (OpAuthorize r))).
 Proof. exact C19Proofs.pkce_method_not_advertised_refused. Qed.
 Print Assumptions pkce_method_not_advertised_refused.
+
+(* PKCE methods end to end.  In every reachable state of every history the code_challenge_method recorded
+   in a stored session is absent or advertised ... *)
+Theorem stored_pkce_methods_advertised : forall iss mtls p opts cfg statics, build p opts = Some cfg ->
+  forall dyn ops s, In s (st_asess (s_store (fst (run_from (mkWorld cfg statics) (init_state dyn) 0 ops)))) ->
+  is_empty (p_method (a_params s)) = true \/
+  advertised_in iss mtls cfg MCodeChallengeMethods (p_method (a_params s)) = true.
+Proof.
+  intros iss mtls p opts cfg statics Hb dyn ops s IN.
+  destruct (stored_methods_listed (mkWorld cfg statics) dyn ops s IN) as [E|M]; [left; exact E|right].
+  rewrite (pkce_method_advertised iss mtls _ _ _ _ Hb). exact M.
+Qed.
+Print Assumptions stored_pkce_methods_advertised.
+
+(* ... and a PKCE method that is not enabled (= not advertised) never completes a code exchange: over ALL
+   histories, whenever the token endpoint hands out tokens for a code whose session recorded a challenge,
+   the verifier matches the challenge under an ADVERTISED method (the method named in the authorization
+   request, or - when it left the method out - the configured default, which is advertised) *)
+Theorem pkce_exchange_only_under_advertised_method : forall iss mtls p opts cfg statics, build p opts = Some cfg ->
+  forall dyn ops n now r,
+  let st := s_store (fst (run_from (mkWorld cfg statics) (init_state dyn) 0 ops)) in
+  is_tokens (snd (run_seq (code_grant (mkWorld cfg statics) n now r) st)) = true ->
+  exists s, find (fun s => ideq (a_code s) (t_code r)) (st_asess st) = Some s /\
+    (cf_pkce_enabled cfg = true -> pk_is_empty (p_challenge (a_params s)) = false ->
+       exists m, advertised_in iss mtls cfg MCodeChallengeMethods m = true /\
+                 is_pkce_valid (t_verifier r) (p_challenge (a_params s)) m = true).
+Proof.
+  intros iss mtls p opts cfg statics Hb dyn ops n now r st H.
+  destruct (exchange_under_advertised_method_all iss mtls p opts cfg statics Hb dyn ops n now r H) as [s [EF K]].
+  exists s. split; [exact EF|]. intros EN EC. destruct (K EN EC) as [m [A [_ [V _]]]]. exists m. auto.
+Qed.
+Print Assumptions pkce_exchange_only_under_advertised_method.
+
+(* contrapositive, for every store: if the verifier fits the recorded challenge under no advertised method,
+   the token request is refused *)
+Theorem unadvertised_pkce_method_completes_no_exchange : forall iss mtls p opts cfg statics, build p opts = Some cfg ->
+  forall n now r st s,
+  find (fun s => ideq (a_code s) (t_code r)) (st_asess st) = Some s ->
+  cf_pkce_enabled cfg = true -> pk_is_empty (p_challenge (a_params s)) = false ->
+  (is_empty (p_method (a_params s)) = true \/ mem (p_method (a_params s)) (cf_pkce_methods cfg) = true) ->
+  (forall m, advertised_in iss mtls cfg MCodeChallengeMethods m = true ->
+             is_pkce_valid (t_verifier r) (p_challenge (a_params s)) m = false) ->
+  is_tokens (snd (run_seq (code_grant (mkWorld cfg statics) n now r) st)) = false.
+Proof. intros iss mtls p opts cfg statics Hb n now r st s. exact (unadvertised_method_completes_no_exchange p opts cfg statics Hb iss mtls n now r st s). Qed.
+Print Assumptions unadvertised_pkce_method_completes_no_exchange.
 
 (* the gates let an advertised value through: validateParamsAsOptionals accepts only values of the three lists *)
 Theorem accepted_values_are_listed : forall cfg p c, validate_optionals cfg p c = None ->
